@@ -10,6 +10,12 @@ Decided (necessary structural clauses; the numeric behaviour is not decided):
       check_runtime_limits itself contains both comparisons
   R3  handler search / pending_exception in handle_error are reachable only for catchable
       errors; JsError::into_opaque refuses engine errors; writers of Vm.pending_exception audited
+  R5  every push of a call frame is preceded by a limit check: each call of Vm::push_frame / push_frame_with_stack is
+      dominated by Context::check_runtime_limits in the same function, or the function is an audited pusher that can only
+      be reached through a checked [[Call]] slot or from the host (direct eval is not a [[Call]]: perform_eval checks itself)
+  R6  an operation that merges an incoming completion with the result of a script-capable call (IteratorClose) tests
+      is_catchable on that result before it may return the incoming completion instead: a limit error raised inside
+      `return()` is not replaced by the catchable throw it interrupted
   R4  the CompletionRecord produced by running or resuming an activation (Context::run,
       GeneratorContext::resume) is never discarded: the record is returned, handed on by value, or its
       Throw payload flows to the caller's return value / an error sink; and no caller turns "is a throw
@@ -552,12 +558,99 @@ def r4(db, rep):
     rep.floor("R4", "Context::run / GeneratorContext::resume call sites", n, 11)
 
 
+AUDITED_PUSHERS = {
+    "Vm::push_frame_with_stack": "wrapper around push_frame (its callers are the instances)",
+    "GeneratorContext::resume": "reached only from native functions (%GeneratorPrototype%.next/return/throw, the Await and "
+                                "async-generator continuations), each of which is a [[Call]] slot checked by R2",
+    "JsPromise::await_native": "promise reaction handlers: native functions entered through a checked [[Call]]",
+    "Json::parse": "JSON.parse is a native function ([[Call]] checked); the evaluated text cannot call anything",
+    "Script::prepare_run": "host entry; script can re-enter it only through a host-defined native ([[Call]] checked)",
+    "SourceTextModule::execute": "module bodies run once, driven by the host / by promise jobs (C17-R2), never recursively by script",
+    "SourceTextModule::initialize_environment": "module linking, host driven",
+    "SyntheticModule::evaluate": "host-defined module evaluation steps, host driven",
+}
+
+
+def r5(db, rep):
+    rep.rule("R5", "every Vm::push_frame / push_frame_with_stack is dominated by check_runtime_limits in its function, or the "
+                   "function is an audited pusher reachable only through a checked [[Call]] slot / from the host")
+    n = 0
+    for f in db.fns.values():
+        if not f.id.startswith("boa_engine::") or not f.mentions("push_frame"):
+            continue
+        if "::tests" in f.id or f.span.endswith("tests.rs") or "/tests" in f.span:
+            continue
+        base = cname(f.id).split("::{closure")[0]
+        checks = [b for b, t in f.calls() if cn(t) == "Context::check_runtime_limits"]
+        k = 0
+        for b, t in f.calls():
+            if cn(t) not in ("Vm::push_frame", "Vm::push_frame_with_stack"):
+                continue
+            n += 1
+            ok = any(f.dominates(c, b) for c in checks)
+            if ok:
+                rep.ob("R5", f"{base}:{cn(t).split('::')[-1]}:{k}:limit-checked", True, loc=f.loc(b))
+            else:
+                rep.ob("R5", f"{base}:{cn(t).split('::')[-1]}:{k}:limit-checked-or-audited", base in AUDITED_PUSHERS,
+                       f"{cname(f.id)} pushes a call frame ({f.loc(b)}) without a dominating check_runtime_limits and is not an "
+                       f"audited pusher: script can recurse through it without ever being compared with the recursion / "
+                       f"stack-size limit (direct `eval(s)` with s = \"eval(s)\" nested 100 frames under a limit of 16)",
+                       loc=f.loc(b))
+            k += 1
+    rep.floor("R5", "frame push sites", n, 11)
+
+
+def r6(db, rep):
+    rep.rule("R6", "a function that takes an incoming completion (a JsResult parameter) and makes script-capable calls tests "
+                   "is_catchable on each such call's result: an engine error is never replaced by the incoming completion")
+    n = 0
+    for f in db.fns.values():
+        if not f.id.startswith("boa_engine::builtins::iterable") or "{closure" in f.id or "::tests" in f.id:
+            continue
+        params = [i for i in range(1, f.rec["argc"] + 1) if "Result<boa_engine::value::JsValue, boa_engine::error::JsError>" in
+                  f.locals[i].replace("core::result::", "")]
+        if not params:
+            continue
+        name = cname(f.id)
+        catch_tests = []
+        for b, t in f.calls():
+            if cn(t) == "JsError::is_catchable" and t["args"]:
+                l = op_local(t["args"][0])
+                catch_tests.append(set(provenance_of(f, l)) if l is not None else set())
+        k = 0
+        for b, t in f.calls():
+            if not t.get("dest") or len(t["dest"]) != 1:
+                continue
+            dty = f.locals[t["dest"][0]]
+            if "JsError" not in dty or not dty.replace("core::result::", "").startswith("Result<"):
+                continue
+            if not any(op_local(a) is not None and f.locals[op_local(a)].replace(" ", "") in
+                       ("&mutboa_engine::context::Context", "&mutboa_engine::Context") for a in t["args"]):
+                continue
+            n += 1
+            d = t["dest"][0]
+            ok = any(d in ct for ct in catch_tests)
+            rep.ob("R6", f"{name}:{cn(t).split('::')[-1]}:{k}:engine-error-kept", ok,
+                   f"{name} can discard the result of {cn(t)} ({f.loc(b)}) in favour of its incoming completion without testing "
+                   f"is_catchable: `it.return = () => {{ while (true) {{}} }}` under a loop limit, closed because the mapping "
+                   f"function threw, lets `try/catch` observe the throw and carry on — the limit error vanishes", loc=f.loc(b))
+            k += 1
+    rep.floor("R6", "script-capable calls in completion-merging operations", n, 2)
+
+
+def provenance_of(f, l):
+    from facts import provenance
+    return provenance(f, l, extra=("as_ref", "as_mut", "branch", "unwrap_err", "err", "as_deref"))
+
+
 def run(db, rep, tier):
     r1(db, rep)
     r1b(db, rep)
     r2(db, rep)
     r3(db, rep)
     r4(db, rep)
+    r5(db, rep)
+    r6(db, rep)
     rep.assumptions += [
         "bytecode emitted between two Rust program points is straight-line with respect to the loop head "
         "(R1 reasons over the compiler's Rust CFG, not over emitted jumps)",
